@@ -7,7 +7,7 @@
 From Coq Require Import ZArith List Bool.
 From GV.Gen Require Import Configs.
 From GV.Model Require Import Check.
-From GV.Lemmas Require Import RandL C13L C13W.
+From GV.Lemmas Require Import RandL C13L C13W C13M.
 Import ListNotations.
 Open Scope Z_scope.
 
@@ -55,6 +55,18 @@ Proof. exact dynamic_obstacles_wf. Qed.
 Theorem C13_keydoor_wf : forall h w own r, 4 <= h -> 5 <= w -> Leaf (reset_keydoor h w own) r ->
   exists s, r = Ok s /\ wf_check (PKeydoor h w) s = true.
 Proof. exact keydoor_wf. Qed.
+(* ---- `memory`, EVERY shape (height >= 5, odd width >= 5), every set of at least two colours (none of them NONE) and every outcome: never an
+        error; the exact grid: a T-maze (rows 1 and h-2 joined by the middle column), an exit in each top corner with two different colours of
+        the set, a beacon in each bottom corner carrying the colour of exactly one exit, the agent in the middle facing FORWARD ---- *)
+Theorem C13_memory_outcome : forall h w cs own r, 5 <= h -> 5 <= w -> w mod 2 = 1 -> NoDup cs -> ~ In 0 cs -> (2 <= length cs)%nat ->
+  Leaf (reset_memory h w cs own) r ->
+  exists g cg cb xg xb, r = Ok (mkS g (h / 2, w / 2) FORWARD NoneObj) /\ wf_grid g /\ gheight g = h /\ gwidth g = w /\
+    In cg cs /\ In cb cs /\ cg <> cb /\ ((xg = 1 /\ xb = w - 2) \/ (xg = w - 2 /\ xb = 1)) /\
+    forall q, in_grid g q = true -> lookupH g q = mem_cell h w xg xb cg cb q.
+Proof. exact memory_outcome. Qed.
+Theorem C13_memory_wf : forall h w cs own r, 5 <= h -> 5 <= w -> w mod 2 = 1 -> NoDup cs -> ~ In 0 cs -> (2 <= length cs)%nat ->
+  Leaf (reset_memory h w cs own) r -> exists s, r = Ok s /\ wf_check (PMemory h w cs) s = true.
+Proof. exact memory_wf. Qed.
 (* ---- `teleport`, every shape >= 4x4, every outcome: never an error; one exit, exactly two telepods of one colour, agent on floor ---- *)
 Theorem C13_teleport_wf : forall h w own r, 4 <= h -> 4 <= w -> Leaf (reset_teleport h w own) r ->
   exists s, r = Ok s /\ wf_check (PTeleport h w) s = true.
